@@ -79,6 +79,65 @@ def inner_lambda(f):
     return [g for g in f.unit.fns(MS + '::(lambda)::operator()') if g.d.get('parent_fn') == f.id]
 
 
+def feeder_of(f):
+    """the closure of make_segmentation that hands a point to the builder (calls OptimalPiecewiseLinearModel::add_point)"""
+    cs = [l for l in inner_lambda(f) if l.calls_to(OPLM + '::add_point')]
+    return cs[0] if len(cs) == 1 else None
+
+
+def _subst(t, m):
+    if isinstance(t, tuple):
+        if t in m:
+            return m[t]
+        return tuple(_subst(x, m) for x in t)
+    return t
+
+
+def feed_sites(f):
+    """every call that feeds a point (x, y) to the builder through the feeding closure: [(node in f, x term, y term, [(cond term,
+    label)], helper name or None)].  A call of another local closure that itself calls the feeding closure is expanded with its
+    parameters substituted, so hoisting a piece of the driver into a helper closure does not change what the rules see."""
+    fd = feeder_of(f)
+    if fd is None:
+        return None
+    out = []
+    helpers = [l for l in inner_lambda(f) if l.id != fd.id and any(l.n(c).get('cd') == fd.id for c in l.calls())]
+    for c in f.calls():
+        nd = f.n(c)
+        if not reachable(f, c):
+            continue
+        if nd.get('cd') == fd.id:
+            a = nd['args']
+            x = strip_cast(f.term(a[1], inline=False))
+            if x[0] == 'local':
+                d = f.defs.get(x[2], {})
+                ws = [w for w in d.get('writes', []) if f.n(w).get('op') == '=']
+                if len(ws) == 1:
+                    x = strip_cast(f.term(f.n(ws[0])['ch'][1], inline=False))
+            out.append((c, x, nocast(f.term(a[2], inline=False)), [(t, lab) for (t, lab, cn) in conds_of(f, c)], None))
+            continue
+        for h in helpers:
+            if nd.get('cd') != h.id:
+                continue
+            actual = [nocast(f.term(a_, inline=True)) for a_ in nd['args'][1:]]
+            m = {('param', p_['name']): actual[k] for k, p_ in enumerate(h.params) if k < len(actual)}
+            outer = [(t, lab) for (t, lab, cn) in conds_of(f, c)]
+            for hc in h.calls():
+                if h.n(hc).get('cd') != fd.id or not reachable(h, hc):
+                    continue
+                a = h.n(hc)['args']
+                x = strip_cast(h.term(a[1], inline=True))
+                if x[0] == 'local':
+                    d = h.defs.get(x[2], {})
+                    ws = [w for w in d.get('writes', []) if h.n(w).get('op') == '=']
+                    if len(ws) == 1:
+                        x = strip_cast(h.term(h.n(ws[0])['ch'][1], inline=True))
+                y = nocast(h.term(a[2], inline=True))
+                inner = [(_subst(nocast(h.term(cn, inline=True)), m), lab) for (t, lab, cn) in conds_of(h, hc)]
+                out.append((c, _subst(nocast(x), m), _subst(y, m), outer + inner, h.d.get('line')))
+    return out
+
+
 def is_in_call(t, name='in'):
     t = strip_cast(t)
     return t[0] == 'call' and len(t) > 3 and t[3] == ('param', name) and len(t[2]) == 1
@@ -106,11 +165,10 @@ def succ_of(t):
 def rule_no_drop(ctx):
     obs = []
     for f in six(ctx):
-        lams = inner_lambda(f)
-        if len(lams) != 1:
-            obs.append(Ob('NO-DROP', f, 0, 'one helper that feeds the point to the builder', f"{len(lams)} inner lambdas", UNDECIDED, arm='helper'))
+        l = feeder_of(f)
+        if l is None:
+            obs.append(Ob('NO-DROP', f, 0, 'one helper that feeds the point to the builder', f"{len(inner_lambda(f))} inner lambdas, none or several call the builder", UNDECIDED, arm='helper'))
             continue
-        l = lams[0]
         g = graph(l)
         X, Y = ('param', l.params[0]['name']), ('param', l.params[1]['name'])
         adds = [c for c in l.calls_to(OPLM + '::add_point') if reachable(l, c)]
@@ -192,25 +250,16 @@ def rule_cut_sites(ctx):
 def rule_rank_agree(ctx):
     obs = []
     for f in six(ctx):
-        lams = inner_lambda(f)
-        if not lams:
+        sites = feed_sites(f)
+        if sites is None:
+            obs.append(Ob('RANK-AGREE', f, 0, 'one closure that feeds the points to the builder', 'not found', UNDECIDED, arm='sites'))
             continue
-        lid = lams[0].id
         N = ('param', f.params[0]['name'])
-        calls = [c for c in f.calls() if f.n(c).get('cd') == lid and reachable(f, c)]
-        if len(calls) < 4:
-            obs.append(Ob('RANK-AGREE', f, 0, 'points fed to the builder', f"only {len(calls)} add sites", UNDECIDED, arm='sites'))
-        for c in calls:
-            a = f.n(c)['args']
-            xt = f.term(a[1], inline=False)
-            yt = nocast(f.term(a[2], inline=False))
-            x = strip_cast(xt)
-            if x[0] == 'local':
-                # `next` assigned inside the guard
-                d = f.defs.get(x[2], {})
-                ws = [w for w in d.get('writes', []) if f.n(w).get('op') == '=']
-                if len(ws) == 1:
-                    x = strip_cast(f.term(f.n(ws[0])['ch'][1], inline=False))
+        if len(sites) < 4:
+            obs.append(Ob('RANK-AGREE', f, 0, 'points fed to the builder', f"only {len(sites)} add sites", UNDECIDED, arm='sites'))
+        for (c, x, yt, conds, via) in sites:
+            xt = x
+            x = strip_cast(x)
             if is_in_call(x):
                 e = in_arg(x)
                 ok = e == yt
@@ -229,21 +278,21 @@ def rule_rank_agree(ctx):
                     want = ('op', '<', ('sym', 'S'), ('sym', 'NEXT'))
                     okg = False
                     seen = []
-                    for (t, lab, cn) in conds_of(f, c):
+                    for (t, lab) in conds:
                         if lab is not True:
                             continue
                         tt = nocast(strip_cast(t))
                         seen.append(fmt_term(tt)[:70])
                         # replace the successor term and the next key by symbols, then compare by FORM
                         nxt = None
-                        for s in subterms(tt):
-                            if is_in_call(s) and _lin_diff_is(in_arg(s), e, 1):
-                                nxt = s
+                        for s_ in subterms(tt):
+                            if is_in_call(s_) and _lin_diff_is(in_arg(s_), e, 1):
+                                nxt = s_
                         if nxt is None:
                             continue
-                        cur = [s for s in subterms(tt) if is_in_call(s) and _lin_diff_is(in_arg(s), e, 0)]
+                        cur = [s_ for s_ in subterms(tt) if is_in_call(s_) and _lin_diff_is(in_arg(s_), e, 0)]
                         t2 = _replace(tt, nxt, ('sym', 'NEXT'))
-                        if succ_of(strip_cast(tt[2])) is not None and tt[0] == 'op':
+                        if tt[0] == 'op' and len(tt) == 4 and succ_of(strip_cast(tt[2])) is not None:
                             t2 = ('op', tt[1], ('sym', 'S'), _replace(tt[3], nxt, ('sym', 'NEXT')))
                         else:
                             for cc in cur:
@@ -296,8 +345,8 @@ def rule_closing(ctx):
     obs = []
     for f in six(ctx):
         g = graph(f)
-        lams = inner_lambda(f)
-        lid = lams[0].id if lams else None
+        fd_ = feeder_of(f)
+        lid = fd_.id if fd_ else None
         N = ('param', f.params[0]['name'])
         END = ('param', f.params[2]['name'])
         closing = []
@@ -424,24 +473,18 @@ def rule_seam(ctx):
             obs.append(Ob('SEAM', f, calls[0], 'a chunk starts at the first occurrence of its first key', f"`{st[1] if len(st) > 1 else fmt_term(st)}` is not advanced past duplicates of the previous key",
                           VIOLATED if not s_skip else OK, arm='tile'))
     for f in six(ctx):
-        lams = inner_lambda(f)
-        lid = lams[0].id if lams else None
         N, END = ('param', f.params[0]['name']), ('param', f.params[2]['name'])
         E1 = ('op', '-', END, ('lit', 1))
         found = None
-        for c in [c for c in f.calls() if f.n(c).get('cd') == lid and reachable(f, c)]:
-            xt = strip_cast(f.term(f.n(c)['args'][1], inline=False))
-            yt = nocast(f.term(f.n(c)['args'][2], inline=False))
-            x = xt
-            if x[0] == 'local':
-                d = f.defs.get(x[2], {})
-                ws = [w for w in d.get('writes', []) if f.n(w).get('op') == '=']
-                if len(ws) == 1:
-                    x = strip_cast(f.term(f.n(ws[0])['ch'][1], inline=False))
+        sites = feed_sites(f)
+        if sites is None:
+            obs.append(Ob('SEAM', f, 0, 'one closure that feeds the points to the builder', 'not found', UNDECIDED, arm='end-gap'))
+            continue
+        for (c, x, yt, conds, via) in sites:
             e = succ_of(x)
             if e is not None and nocast(e) == E1 and yt == E1:
                 # must be restricted to chunks that do not end the data
-                cs = [(nocast(strip_cast(t)), lab) for (t, lab, cn) in conds_of(f, c)]
+                cs = [(nocast(strip_cast(t)), lab) for (t, lab) in conds]
                 not_last = any(_implies(t if lab else ('un', '!', t), ('op', '<', END, N)) for (t, lab) in cs)
                 found = (c, not_last)
         if found and found[1]:
@@ -856,17 +899,20 @@ def rule_key_arith(ctx):
         pname = f.params[4]['name'] if len(f.params) == 6 else f.params[2]['name']
         kt = None
         n_ops = 0
-        for i in f.all_ids():
-            nd = f.n(i)
-            if nd['c'] == 'BinaryOperator' and nd['op'] in ('-', '+') and reachable(f, i):
-                a, b = f.term(nd['ch'][0], inline=False), f.term(nd['ch'][1], inline=False)
-                if any(is_in_call(s, pname) for s in subterms(a)) and any(is_in_call(s, pname) for s in subterms(b)):
-                    n_ops += 1
-                    rt = u.type(nd['t'])
-                    at = u.base_type(f.n(f.strip(nd['ch'][0], casts=True))['t'])
-                    ok = rt.get('k') == 'float' or (rt.get('k') == 'int' and (not rt.get('signed') or rt.get('bits', 0) > (at or {}).get('bits', 0)))
-                    obs.append(Ob('KEY-ARITH', f, i, 'a difference/sum of two keys is evaluated in an unsigned, floating or wider type (keys may span the whole range of the key type)',
-                                  f"`{fmt_term(f.term(i, inline=False))[:80]}` evaluated in {rt['s']}", OK if ok else VIOLATED, arm='key-key'))
+        # the driver and its local closures (a piece of the driver hoisted into a helper closure is still the driver); locals
+        # that hold a key (`const K x = in(i)`) are looked through
+        for fn_ in [f] + [l for l in f.unit.functions.values() if l.d.get('parent_fn') == f.id and l.name == 'operator()']:
+            for i in fn_.all_ids():
+                nd = fn_.n(i)
+                if nd['c'] == 'BinaryOperator' and nd['op'] in ('-', '+') and reachable(fn_, i):
+                    a, b = fn_.term(nd['ch'][0], inline=True), fn_.term(nd['ch'][1], inline=True)
+                    if any(is_in_call(s, pname) for s in subterms(a)) and any(is_in_call(s, pname) for s in subterms(b)):
+                        n_ops += 1
+                        rt = u.type(nd['t'])
+                        at = u.base_type(fn_.n(fn_.strip(nd['ch'][0], casts=True))['t'])
+                        ok = rt.get('k') == 'float' or (rt.get('k') == 'int' and (not rt.get('signed') or rt.get('bits', 0) > (at or {}).get('bits', 0)))
+                        obs.append(Ob('KEY-ARITH', fn_, i, 'a difference/sum of two keys is evaluated in an unsigned, floating or wider type (keys may span the whole range of the key type)',
+                                      f"`{fmt_term(fn_.term(i, inline=False))[:80]}` evaluated in {rt['s']}", OK if ok else VIOLATED, arm='key-key'))
         obs.append(Ob('KEY-ARITH', f, 0, 'no overflowing key arithmetic in the segmentation driver', f"{n_ops} key-key additions/subtractions", OK, arm='scan'))
     return obs
 
@@ -985,10 +1031,10 @@ def rule_index_cover(ctx):
     chunk lengths 1..6 (every position relative to both ends) at two offsets, with every duplicate pattern, are exhaustive."""
     obs = []
     for f in six(ctx):
-        lams = inner_lambda(f)
-        if not lams:
+        fd_ = feeder_of(f)
+        if fd_ is None:
             continue
-        lid = lams[0].id
+        lid = fd_.id
         g = graph(f)
         Nn, Sn, En = f.params[0]['name'], f.params[1]['name'], f.params[2]['name']
         sites = []
